@@ -102,7 +102,9 @@ func cleanSuffix(val any) any {
 		for k, v := range t {
 			parts := strings.Split(k, "#")
 
-			result[parts[0]] = cleanSuffix(v)
+			// different variables contributing to the same list or structure share the name in front of
+			// the suffix. Their values have to be merged instead of overwriting each other
+			result[parts[0]] = merge(result[parts[0]], v)
 		}
 
 		return result
